@@ -150,5 +150,7 @@ def run(facts, rep, tier):
     if tma:
         body = tma[0]["body"]
         loops = [n_ for n_, _ in nodes(body, "match") if n_.get("src") == "for" and any(x.endswith("merge::try_merge_schema") for x in calls_in(n_))]
-        first = [x for x, _ in nodes(body, "call") if x.get("fn", "").endswith("merge::try_merge_schema") and src(x["args"][:2]) == "first, second"]
+        from lib import Canon
+        cnm = Canon(c, tma[0], 3)
+        first = [x for x, _ in nodes(body, "call") if x.get("fn", "").endswith("merge::try_merge_schema") and [cnm.r(a) for a in x["args"][:2]] == ["$&[Schema].0", "$&[Schema].1"]]
         rep.ob("C09.W1", "merge_all-folds-every-subschema", bool(loops) and bool(first), "first two subschemas are merged, then every remaining one is folded in")
